@@ -473,7 +473,7 @@ func (cr *caseRun) event(r rec) {
 
 func (cr *caseRun) driftEv(what string, st Step) {
 	cr.drift++
-	cr.event(rec{"e": "drift", "what": what, "step": st})
+	cr.event(rec{"e": "deviation", "what": what, "step": st})
 }
 
 // lc samples the occupancy of every manager's lock; only meaningful (and only emitted) while no
@@ -734,9 +734,35 @@ func (cr *caseRun) reportHang(s *sharer, what string) {
 		"kinds": cr.c.Kinds, "lockof": cr.c.LockOf})
 }
 
+// waitersOn: sharers whose pending access needs manager m (1-based).
+func (cr *caseRun) waitersOn(m int) int {
+	n := 0
+	for _, o := range cr.sh {
+		if o.state == "wait" && cr.mgrOf(o.pend.c) == m {
+			n++
+		}
+	}
+	return n
+}
+
+// release updates the driver's mirror when sharer a was seen to end a section: a released
+// variable with pending requests goes to one of the requesters at once (-1: "one of them, not
+// known yet which"), as the channel does.
 func (cr *caseRun) release(a int) {
 	for i := range cr.holder {
 		if cr.holder[i] == a {
+			if cr.waitersOn(i+1) > 0 {
+				cr.holder[i] = -1
+			} else {
+				cr.holder[i] = 0
+			}
+		}
+	}
+}
+
+func (cr *caseRun) fixUnknown() {
+	for i := range cr.holder {
+		if cr.holder[i] == -1 && cr.waitersOn(i+1) == 0 {
 			cr.holder[i] = 0
 		}
 	}
@@ -764,8 +790,9 @@ func (cr *caseRun) settle(s *sharer, r result, immediate bool) {
 		if immediate {
 			cr.temit(rec{"e": "block", "a": s.id, "k": s.pend.k, "c": s.pend.c, "v": s.pend.v})
 		}
-		cr.release(s.id)
 		s.state = "idle"
+		cr.release(s.id)
+		cr.fixUnknown()
 		_ = ar
 		cr.temit(rec{"e": "timeout", "a": s.id, "lc": cr.lc()})
 	default:
@@ -803,8 +830,8 @@ func (cr *caseRun) doEnd(s *sharer, how string) {
 	if !ok {
 		return
 	}
-	cr.release(s.id)
 	s.state = "idle"
+	cr.release(s.id)
 	if ar.out == "commit" {
 		cr.addTxn(s.id, s.start, ar.end, s.ops)
 	}
@@ -909,8 +936,19 @@ func (cr *caseRun) gated() {
 				continue
 			}
 			s.pend = command{t: "op", k: st.K, c: st.C, v: st.V}
-			s.cmd <- s.pend
 			h := cr.holder[cr.mgrOf(st.C)-1]
+			if h != 0 && h != s.id && cr.c.Fam == "fin" {
+				// all timers of a case have the same length: the sharer that started waiting first is
+				// refused first. Start this wait well after the previous one, so that a variable the
+				// earlier waiter gives up on its refusal reaches this one before its own timer fires.
+				for _, o := range cr.sh {
+					if o.state == "wait" {
+						time.Sleep(cr.timeout / 2)
+						break
+					}
+				}
+			}
+			s.cmd <- s.pend
 			if h == 0 || h == s.id {
 				if st.T == "block" {
 					cr.driftEv("planned to block, but nobody was observed to hold the variable", st)
